@@ -190,6 +190,33 @@ func generateMore(suite string, seed uint64, i int, r *rng, id string, g gp) *Ca
 		cfg := genCfg(r, cp{p1: []int{0, 1}, p2: []int{0}, p4: []int{1}, p5: []int{4}, trace: true, mon: true}, usedNames(edges))
 		cfg.Thor = -1
 		return lay(cfg, edges)
+	case "c10-mid": // sparse acyclic graphs of 60..80 nodes, about 1.5 edges per node: long runs of degenerate pivots before an
+		// improving one, re-hung subtrees (dense graphs of this size cost minutes in the ordering phase: thousands of helper nodes)
+		n := r.rangeIn(60, 80)
+		m := n + n/2
+		var es [][2]int
+		for k := 0; k < m; k++ {
+			a, b := r.intn(n), r.intn(n)
+			if a == b {
+				continue
+			}
+			if a > b {
+				a, b = b, a
+			}
+			es = append(es, [2]int{a, b})
+		}
+		for i := 0; i+1 < n; i++ { // keep most of it in one component
+			if r.chance(1, 4) {
+				es = append(es, [2]int{i, i + 1})
+			}
+		}
+		var edges [][]string
+		for _, e := range es {
+			edges = append(edges, []string{plainName(e[0]), plainName(e[1])})
+		}
+		cfg := genCfg(r, cp{p1: []int{0, 1}, p2: []int{0}, p4: []int{1}, p5: []int{4}, trace: true, mon: true}, usedNames(edges))
+		cfg.Thor = -1
+		return lay(cfg, edges)
 	case "c10": // network simplex layering, graphs that need pivots
 		g.kind = []int{3, 3, 1, 1, 0}[r.intn(5)]
 		if r.chance(2, 3) {
